@@ -5,7 +5,7 @@ CONSTANTS
   Kind = "nameaddr"
   Atoms <- AtomsQ
   Prefix <- PfxQ
-  MaxLen = 12
+  MaxLen = 11
   Cfgs <- CfgsNA8
   Junk = 34
   EmitOn = TRUE
